@@ -246,6 +246,11 @@ fn execute_net(prop: &str, p: &net::NetProgram) -> RunInfo {
             });
             let res2 = net::run_net(p, &opts);
             intr::disarm();
+            for r in &res.trace {
+                if let net::Ev::Topo { n, .. } = &r.ev {
+                    info.probe(if *n == u32::MAX { "topology_query_panicked" } else if *n >= 2 { "topology_routes_queried" } else { "topology_queried_with_less_than_two_destinations" });
+                }
+            }
             if let Some(h) = other {
                 if h.join().unwrap_or(false) {
                     info.probe("other_thread_set_up_a_simulation_during_a_handler");
